@@ -60,6 +60,8 @@ def plain_entry(label, attrs):
             return False
     if 'macroName' in attrs and not _plain_name(attrs['macroName']):
         return False
+    if attrs.get('id', 'x') == '':         # Context.label never produces an empty id
+        return False
     return True
 
 
